@@ -247,21 +247,38 @@ def yaml_glue_problem(spec):
     difference (the expansion rejects those too)."""
     import yaml
     from semantiva.configurations.load_pipeline_from_yaml import _parse_run_space_block
-    text = yaml.safe_dump({"run_space": spec_mapping(spec)}, sort_keys=False)
-    block = yaml.safe_load(text)["run_space"]
-    try:
-        parsed = _parse_run_space_block(block)
-    except ValueError as ex:
-        if "Duplicate context key(s) across run_space blocks" in str(ex):
-            return None
-        return "loader rejected the block: %s" % str(ex)[:200]
     want = build_cfg(spec)
-    if parsed != want:
-        diffs = [f for f in ("combine", "max_runs", "dry_run", "blocks") if getattr(parsed, f, None) != getattr(want, f, None)]
-        return "parsed configuration differs from the written one in %s: parsed %s=%r, written %r" % (
-            diffs, diffs[0] if diffs else "?", getattr(parsed, diffs[0], None) if diffs else None,
-            getattr(want, diffs[0], None) if diffs else None)
+    for spelling, mapping in (("every field written", spec_mapping(spec)), ("documented defaults left out", minimal_mapping(spec))):
+        text = yaml.safe_dump({"run_space": mapping}, sort_keys=False)
+        block = yaml.safe_load(text)["run_space"]
+        try:
+            parsed = _parse_run_space_block(block)
+        except ValueError as ex:
+            if "Duplicate context key(s) across run_space blocks" in str(ex):
+                return None
+            return "loader rejected the block (%s): %s" % (spelling, str(ex)[:200])
+        if parsed != want:
+            diffs = [f for f in ("combine", "max_runs", "dry_run", "blocks") if getattr(parsed, f, None) != getattr(want, f, None)]
+            return "parsed configuration (%s) differs from the written one in %s: parsed %s=%r, written %r" % (
+                spelling, diffs, diffs[0] if diffs else "?", getattr(parsed, diffs[0], None) if diffs else None,
+                getattr(want, diffs[0], None) if diffs else None)
     return None
+
+
+def minimal_mapping(spec):
+    """The same specification with every field that has a documented default left out when it holds that default
+    (combine: combinatorial, max_runs: 1000, source.mode: by_position, an empty context)."""
+    m = spec_mapping(spec)
+    if m["combine"] == "combinatorial":
+        del m["combine"]
+    if m["max_runs"] == 1000:
+        del m["max_runs"]
+    for e in m["blocks"]:
+        if not e["context"]:
+            del e["context"]
+        if "source" in e and e["source"].get("mode") == "by_position":
+            del e["source"]["mode"]
+    return m
 
 
 def classify(ex):
@@ -349,6 +366,13 @@ def giant_total(g):
     return prod(sizes) if g["combine"] == CB else sizes[0]
 
 
+def fmt_total(n):
+    try:
+        return "%.3g" % n
+    except OverflowError:
+        return "1e%d" % int(n.bit_length() * 0.30103)
+
+
 def run_giants(giants, directory):
     """Never in-process: one child per giant, RLIMIT_AS + alarm; returns outcomes in order."""
     procs = []
@@ -388,6 +412,8 @@ def giants_for(tier):
                      "source": {"path": "g.json", "prefix": "s", "keys": 7, "values": 8, "mode": CB}}]},
         {"name": "one combinatorial block 30 keys x 10 values (1e30)", "combine": CB, "max_runs": 1000,
          "blocks": [{"mode": CB, "prefix": "k", "keys": 30, "values": 10}]},
+        {"name": "one combinatorial block 3400 keys x 20 values (1e4423: longer than int-to-str conversion allows)", "combine": CB, "max_runs": 1000,
+         "blocks": [{"mode": CB, "prefix": "k", "keys": 3400, "values": 20}]},
         {"name": "two equal giant blocks combined by_position", "combine": BP, "max_runs": 100,
          "blocks": [dict(one, prefix="u"), dict(one, prefix="w")]},
         {"name": "6 blocks of 1000 aligned runs, combinatorial combine (1e18)", "combine": CB, "max_runs": 1000,
@@ -829,11 +855,11 @@ def _run(ck, rng, thorough, facts, tmp):
     gsum = []
     failed_giant = False
     for g, o in zip(gl, outs):
-        gsum.append({"giant": g["name"], "total": "%.3g" % giant_total(g), "max_runs": g["max_runs"], "outcome": o["outcome"], "seconds": o.get("seconds")})
+        gsum.append({"giant": g["name"], "total": fmt_total(giant_total(g)), "max_runs": g["max_runs"], "outcome": o["outcome"], "seconds": o.get("seconds")})
         if o["outcome"] != "maxruns":
             failed_giant = True
-            ck.fail_input(SIG_GIANT, "%s (%.3g runs, max_runs=%d): %s after %s s under RLIMIT_AS=%d MiB / %d s instead of the max-runs error"
-                          % (g["name"], giant_total(g), g["max_runs"], o["outcome"], o.get("seconds"), GIANT_AS >> 20, GIANT_SECONDS),
+            ck.fail_input(SIG_GIANT, "%s (%s runs, max_runs=%d): %s after %s s under RLIMIT_AS=%d MiB / %d s instead of the max-runs error"
+                          % (g["name"], fmt_total(giant_total(g)), g["max_runs"], o["outcome"], o.get("seconds"), GIANT_AS >> 20, GIANT_SECONDS),
                           {"kind": "giant", "giant": g})
     ck.notes["giants"] = gsum
     ck.cov["evaluations"] += len(gl)
@@ -867,7 +893,7 @@ def replay(obj):
         if r.get("kind") == "giant":
             g = r["giant"]
             o = run_giants([g], tmp)[0]
-            print("giant:", g["name"], "| total %.3g runs, max_runs=%d" % (giant_total(g), g["max_runs"]))
+            print("giant:", g["name"], "| total %s runs, max_runs=%d" % (fmt_total(giant_total(g)), g["max_runs"]))
             print("outcome under RLIMIT_AS=%d MiB, %d s:" % (GIANT_AS >> 20, GIANT_SECONDS), o, "| acceptable: maxruns")
             return 0 if o["outcome"] == "maxruns" else 1
         spec = r["spec"]
